@@ -9,7 +9,7 @@
     [le], [lt] are the order of [Ops]; [canon x j] says xs[j] <= x < xs[j+1], or j = N-2 and
     x <= xs[N-1]; [seg x j] says xs[j] <= x <= xs[j+1]. *)
 From Coq Require Import ZArith List.
-From LP Require Import Num OrdLaws C09_Model C09_Proofs C09_Proofs_Ctor C09_Proofs_Session.
+From LP Require Import Num OrdLaws C09_Model C09_Proofs C09_Proofs_Ctor C09_Proofs_Session C09_Proofs_Table.
 Import ListNotations.
 Local Open Scope Z_scope.
 
@@ -217,14 +217,15 @@ Print Assumptions C09_nan_argument_exits.
     Multiply change all outputs by exactly the stated factor" must hold for objects built with units too):
     a unit argument > 0 multiplies the table it belongs to and NOTHING else — the constructed object
     starts with prefactor 1, jLast 0, correlated_calls false whatever the unit arguments are; the public
-    [domain] is the pair of the first and last scaled abscissa. *)
+    [domain] is the pair of the first and last scaled abscissa; the strict-increase test has passed on the
+    abscissae the object HOLDS (after the unit conversion). *)
 Theorem C09_constructor_units_scale_tables_only :
   forall (T : Type) (Ops : NumOps T) (xs fs : list T) (x_dim f_dim : T) (o : object1 T),
     construct1 Ops xs fs x_dim f_dim = Ok o ->
     o_state o = init Ops /\
     o_xs o = scale_units Ops x_dim xs /\ o_fs o = scale_units Ops f_dim fs /\
     o_dom o = (nth0 Ops (o_xs o) 0, nth0 Ops (o_xs o) (length xs - 1)) /\
-    length xs = length fs /\ (2 <= length xs)%nat /\ strictly_increasing Ops xs = true.
+    length xs = length fs /\ (2 <= length xs)%nat /\ strictly_increasing Ops (o_xs o) = true.
 Proof. exact @construct1_spec. Qed.
 Print Assumptions C09_constructor_units_scale_tables_only.
 
@@ -315,3 +316,176 @@ Proof.
   exact (session_history_free2 Ops OL tNx tx tNy ty tf Hx Hy Hnx Hny).
 Qed.
 Print Assumptions C09_session_history_free_2d.
+
+(** ** From the constructor's checks to the premise [increasing] of the theorems above.
+
+    "on tables of 3..2000 points": the 1-D constructor converts the units first and tests x_values[i] <= x_values[i-1] on
+    the CONVERTED abscissae, the table the searches run on (since the repair F45 of the former finding K-C09-2).  Every
+    object a 1-D constructor call returns — whatever the unit arguments, whatever the multiplication does (for doubles:
+    rounding included) — holds a strictly increasing table of at least two points, from the order laws alone.  A unit
+    argument whose rounding multiplication maps two abscissae to one ends the process in the constructor. *)
+Theorem C09_constructor_table_increasing :
+  forall (T : Type) (Ops : NumOps T), OrdLaws Ops ->
+  forall (xs fs : list T) (x_dim f_dim : T) (o : object1 T),
+    construct1 Ops xs fs x_dim f_dim = Ok o ->
+    increasing Ops (Z.of_nat (length (o_xs o))) (table_of Ops (o_xs o)) /\
+    2 <= Z.of_nat (length (o_xs o)) /\ length (o_xs o) = length xs.
+Proof. exact @ctor1_table. Qed.
+Print Assumptions C09_constructor_table_increasing.
+
+(** the same for the data-table overload Interpolation(data, x_dim, f_dim) and the default constructor *)
+Theorem C09_constructor_rows_table_increasing :
+  forall (T : Type) (Ops : NumOps T), OrdLaws Ops ->
+  forall (data : list (list T)) (x_dim f_dim : T) (o : object1 T),
+    construct1_rows Ops data x_dim f_dim = Ok o ->
+    increasing Ops (Z.of_nat (length (o_xs o))) (table_of Ops (o_xs o)) /\ 2 <= Z.of_nat (length (o_xs o)).
+Proof. exact @ctor1_rows_table. Qed.
+Print Assumptions C09_constructor_rows_table_increasing.
+
+Theorem C09_constructor_default_table_increasing :
+  forall (T : Type) (Ops : NumOps T), OrdLaws Ops -> forall (o : object1 T),
+    construct1_default Ops = Ok o ->
+    increasing Ops (Z.of_nat (length (o_xs o))) (table_of Ops (o_xs o)) /\ 2 <= Z.of_nat (length (o_xs o)).
+Proof. exact @ctor1_default_table. Qed.
+Print Assumptions C09_constructor_default_table_increasing.
+
+(** ... so that for EVERY constructed object (at most 2^30 points) the history theorem needs no premise on the table:
+    after any history every operation answers as on a fresh object with the prefactor of the history, without
+    out-of-bounds reads or exhausted loops. *)
+Theorem C09_constructed_history_free :
+  forall (T : Type) (Ops : NumOps T), OrdLaws Ops ->
+  forall (xs fs : list T) (x_dim f_dim : T) (o : object1 T),
+    construct1 Ops xs fs x_dim f_dim = Ok o ->
+    Z.of_nat (length xs) <= 1073741824 ->
+    let N := Z.of_nat (length (o_xs o)) in
+    let xv := table_of Ops (o_xs o) in
+    forall (E : evals T) (h : list (op T)) (q : op T),
+      prefactor (runE Ops N xv E h (o_state o)) = prefactor_after Ops h (n1 Ops) /\
+      snd (stepE Ops N xv E (runE Ops N xv E h (o_state o)) q) =
+      snd (stepE Ops N xv E (fresh (prefactor_after Ops h (n1 Ops))) q) /\
+      snd (stepE Ops N xv E (runE Ops N xv E h (o_state o)) q) <> @OOOB T /\
+      snd (stepE Ops N xv E (runE Ops N xv E h (o_state o)) q) <> @OFuel T.
+Proof. exact @constructed_history_free. Qed.
+Print Assumptions C09_constructed_history_free.
+
+(** (The witness of the old defect — a number type with the order laws and a monotone rounding multiplication on which
+    the constructor with the OLD order, test before conversion, returned a history-dependent object — is kept as the
+    lemma [old_order_history_dependent] about [construct1_old_order] in C09_Proofs_Table.v; it is not a property of the
+    code any more: the repaired constructor exits on that input, [cx_exits].) *)
+
+(** Interpolation_2D scales its abscissae first and builds the helper objects x_int, y_int from the scaled lists with the
+    DEFAULT unit arguments -1.0, so the helpers' check sees the tables the searches run on: every object a 2-D constructor
+    call returns (grid overload and data-table overload, any unit arguments) has strictly increasing axes of at least two
+    points — from the order laws and the fact that the default -1.0 is not > 0.0 (first premise; the arithmetic of [Ops] is
+    uninterpreted, so this fact about the literal has to be stated: it holds for doubles, reals, integers —
+    [dflt_inactive_examples]; it says that the helper constructors do not scale a second time).  A unit argument that
+    collapses two abscissae ends the process in the constructor. *)
+Theorem C09_constructor_2d_tables_increasing :
+  forall (T : Type) (Ops : NumOps T), OrdLaws Ops ->
+  forall (xs ys : list T) (f : list (list T)) (x_dim y_dim f_dim : T) (o : object2 T),
+    ngtb Ops (dflt_dim Ops) (n0 Ops) = false ->
+    construct2 Ops xs ys f x_dim y_dim f_dim = Ok o ->
+    increasing Ops (Z.of_nat (length (o2_xs o))) (table_of Ops (o2_xs o)) /\
+    increasing Ops (Z.of_nat (length (o2_ys o))) (table_of Ops (o2_ys o)) /\
+    2 <= Z.of_nat (length (o2_xs o)) /\ 2 <= Z.of_nat (length (o2_ys o)) /\
+    length (o2_xs o) = length xs /\ length (o2_ys o) = length ys.
+Proof. exact @ctor2_tables. Qed.
+Print Assumptions C09_constructor_2d_tables_increasing.
+
+Theorem C09_constructor_2d_rows_tables_increasing :
+  forall (T : Type) (Ops : NumOps T), OrdLaws Ops ->
+  forall (data : list (list T)) (x_dim y_dim f_dim : T) (o : object2 T),
+    ngtb Ops (dflt_dim Ops) (n0 Ops) = false ->
+    construct2_rows Ops data x_dim y_dim f_dim = Ok o ->
+    increasing Ops (Z.of_nat (length (o2_xs o))) (table_of Ops (o2_xs o)) /\
+    increasing Ops (Z.of_nat (length (o2_ys o))) (table_of Ops (o2_ys o)) /\
+    2 <= Z.of_nat (length (o2_xs o)) /\ 2 <= Z.of_nat (length (o2_ys o)).
+Proof. exact @ctor2_rows_tables. Qed.
+Print Assumptions C09_constructor_2d_rows_tables_increasing.
+
+(** the 2-D history theorem for a CONSTRUCTED object, at full strength: no premise on the tables (only the size bound and
+    the fact about the default unit argument) *)
+Theorem C09_constructed_2d_history_free :
+  forall (T : Type) (Ops : NumOps T), OrdLaws Ops ->
+  forall (xs ys : list T) (f : list (list T)) (x_dim y_dim f_dim : T) (o : object2 T),
+    ngtb Ops (dflt_dim Ops) (n0 Ops) = false ->
+    construct2 Ops xs ys f x_dim y_dim f_dim = Ok o ->
+    Z.of_nat (length xs) <= 1073741824 -> Z.of_nat (length ys) <= 1073741824 ->
+    let Nx := Z.of_nat (length (o2_xs o)) in let xv := table_of Ops (o2_xs o) in
+    let Ny := Z.of_nat (length (o2_ys o)) in let yv := table_of Ops (o2_ys o) in
+    forall (fv : Z -> Z -> T) (h : list (op2 T)) (q : op2 T),
+      snd (step2 Ops Nx xv Ny yv fv (run2 Ops Nx xv Ny yv fv h (o2_state o)) q) =
+      snd (step2 Ops Nx xv Ny yv fv (mkState2 (init Ops) (init Ops) (prefactor2_after Ops h (n1 Ops))) q) /\
+      snd (step2 Ops Nx xv Ny yv fv (run2 Ops Nx xv Ny yv fv h (o2_state o)) q) <> @O2OOB T /\
+      snd (step2 Ops Nx xv Ny yv fv (run2 Ops Nx xv Ny yv fv h (o2_state o)) q) <> @O2Fuel T.
+Proof. exact @constructed2_history_free. Qed.
+Print Assumptions C09_constructed_2d_history_free.
+
+(** Interpolation_2D::Global_Minimum / Global_Maximum (operations of [op2] since this pass: C09_history_free_2d,
+    C09_no_out_of_bounds_2d and the session theorem cover them): they read the value table and the prefactor, neither
+    helper object; the row-wise min_element / max_element scans end on the least and the greatest entry of the WHOLE
+    table (for any Nx x Ny table, by induction over the rows), and the result is std::min resp. std::max of the two
+    products with the prefactor. *)
+Theorem C09_global_extrema_2d_spec :
+  forall (T : Type) (Ops : NumOps T), OrdLaws Ops ->
+  forall (Nx Ny : Z) (fv : Z -> Z -> T), size_ok Nx -> size_ok Ny ->
+  forall (mx : bool) (p : T),
+    exists f_min f_max,
+      glob2 Ops Nx Ny fv mx p = Ok ((if mx then nmax Ops else nmin Ops) (nmul Ops p f_min) (nmul Ops p f_max)) /\
+      attained Nx Ny fv f_min /\ (forall i j, 0 <= i < Nx -> 0 <= j < Ny -> le Ops f_min (fv i j)) /\
+      attained Nx Ny fv f_max /\ (forall i j, 0 <= i < Nx -> 0 <= j < Ny -> le Ops (fv i j) f_max).
+Proof. exact @glob2_spec. Qed.
+Print Assumptions C09_global_extrema_2d_spec.
+
+(** "Set_Prefactor and Multiply change all outputs by exactly the stated factor", for the 2-D extrema: if the
+    multiplication by the prefactor p is monotone (p >= 0) or antitone (p <= 0) — IEEE multiplication is, rounding
+    included, and so is the real one — then Global_Minimum is the least and Global_Maximum the greatest of the products
+    p * f[i][j], and is one of them (also for negative p, where minimum and maximum change places). *)
+Theorem C09_global_extrema_2d_scaled :
+  forall (T : Type) (Ops : NumOps T), OrdLaws Ops ->
+  forall (Nx Ny : Z) (fv : Z -> Z -> T), size_ok Nx -> size_ok Ny ->
+  forall (mx : bool) (p : T),
+    ((forall a b, le Ops a b -> le Ops (nmul Ops p a) (nmul Ops p b)) \/
+     (forall a b, le Ops a b -> le Ops (nmul Ops p b) (nmul Ops p a))) ->
+    exists v, glob2 Ops Nx Ny fv mx p = Ok v /\
+      (exists i j, 0 <= i < Nx /\ 0 <= j < Ny /\ v = nmul Ops p (fv i j)) /\
+      (forall i j, 0 <= i < Nx -> 0 <= j < Ny ->
+         if mx then le Ops (nmul Ops p (fv i j)) v else le Ops v (nmul Ops p (fv i j))).
+Proof. exact @glob2_scaled. Qed.
+Print Assumptions C09_global_extrema_2d_scaled.
+
+(** "each further query ...": not only ONE further query but every CONTINUATION of calls — each issued on the object the
+    previous ones left behind — is answered, call by call, as on a fresh object carrying the prefactor of the history
+    ([traceE rest st]: the list of the outputs of the calls [rest] started on the object [st]). *)
+Theorem C09_continuation_history_free :
+  forall (T : Type) (Ops : NumOps T), OrdLaws Ops -> forall (N : Z) (xv : Z -> T),
+  increasing Ops N xv -> size_ok N ->
+  forall (E : evals T) (h rest : list (op T)),
+    traceE Ops N xv E rest (runE Ops N xv E h (init Ops)) =
+    traceE Ops N xv E rest (fresh (prefactor_after Ops h (n1 Ops))).
+Proof. intros T Ops OL N xv Hi Hn E. exact (continuation_free Ops OL N xv Hi Hn _ _ _ _ _). Qed.
+Print Assumptions C09_continuation_history_free.
+
+(** Save_Function(filename, points) is Interpolate(x) for every x of Linear_Space(domain[0], domain[1], points), in order,
+    on the object itself: WHATEVER the list of arguments is, the values written after any history are those a fresh object
+    (with the prefactor of the history) writes — an instance of the theorem above; and by C09_history_free applied to the
+    history extended by these calls, the object Save_Function leaves behind answers like a fresh one again.
+    (The file output itself is not modelled; Save_Function is not run by the C09 check.) *)
+Theorem C09_save_function_history_free :
+  forall (T : Type) (Ops : NumOps T), OrdLaws Ops -> forall (N : Z) (xv : Z -> T),
+  increasing Ops N xv -> size_ok N ->
+  forall (E : evals T) (h : list (op T)) (points : list T),
+    traceE Ops N xv E (map (fun x => OpInterpolate x) points) (runE Ops N xv E h (init Ops)) =
+    traceE Ops N xv E (map (fun x => OpInterpolate x) points) (fresh (prefactor_after Ops h (n1 Ops))).
+Proof. intros T Ops OL N xv Hi Hn E h points. exact (continuation_free Ops OL N xv Hi Hn _ _ _ _ _ h _). Qed.
+Print Assumptions C09_save_function_history_free.
+
+Theorem C09_continuation_history_free_2d :
+  forall (T : Type) (Ops : NumOps T), OrdLaws Ops ->
+  forall (Nx : Z) (xv : Z -> T) (Ny : Z) (yv : Z -> T) (fv : Z -> Z -> T),
+  increasing Ops Nx xv -> increasing Ops Ny yv -> size_ok Nx -> size_ok Ny ->
+  forall (h rest : list (op2 T)),
+    trace2 Ops Nx xv Ny yv fv rest (run2 Ops Nx xv Ny yv fv h (init2 Ops)) =
+    trace2 Ops Nx xv Ny yv fv rest (mkState2 (init Ops) (init Ops) (prefactor2_after Ops h (n1 Ops))).
+Proof. exact @continuation_free2. Qed.
+Print Assumptions C09_continuation_history_free_2d.
